@@ -676,6 +676,76 @@ fn gated_ops(c: &mut Case, cfg: &NewCfg, b: &mut Built<ModelTransport>, st: &Rc<
                 c.fail(format!("9p device: {}", e));
             }
         }
+        Built::Socket(drv) => {
+            // a send with a body is a two-buffer chain on the TX queue: it may use an indirect table
+            // only if RING_INDIRECT_DESC was negotiated, and (without RING_EVENT_IDX) the driver must
+            // honour VIRTQ_USED_F_NO_NOTIFY
+            use virtio_drivers::device::socket::{ConnectionInfo, VsockAddr};
+            let dev = install_device(st, 0);
+            let peer = VsockAddr { cid: 2, port: 7 };
+            let mut info = ConnectionInfo::new(peer, 5000);
+            // the peer grants credit through a CREDIT_UPDATE packet delivered on the RX queue
+            {
+                let (reg, neg0) = {
+                    let s = st.borrow();
+                    (s.queues.first().copied().unwrap_or_default(), s.driver_features)
+                };
+                let mut rx = RefQueue::new(reg.size as u16, reg.desc, reg.driver, reg.device, neg0 & F_INDIRECT != 0);
+                let hdr = crate::vsock_world::Hdr { src_cid: 2, dst_cid: drv.guest_cid(), src_port: 7, dst_port: 5000, len: 0, typ: 1, op: 6, flags: 0, buf_alloc: 4096, fwd_cnt: 0 };
+                match rx.fetch_one() {
+                    Ok(Some(ch)) => {
+                        let _ = rx.write_out(&ch, &hdr.encode());
+                        let _ = rx.complete(ch.head, 44);
+                    }
+                    other => c.fail(format!("socket: no receive buffer posted after construction: {:?}", other.err())),
+                }
+                // hand the RX queue's device state to the listener, so that its fetch pointer continues
+                dev.borrow_mut().queues.insert(0, rx);
+                let r = guarded(|| {
+                    drv.poll(|ev, _body| {
+                        info.update_for_event(&ev);
+                        Ok(None)
+                    })
+                });
+                if !matches!(r, Ok(Ok(_))) {
+                    c.fail("socket: poll of a CREDIT_UPDATE packet failed");
+                }
+            }
+            let r = guarded(|| drv.send(&[1, 2, 3, 4, 5], &mut info).is_ok());
+            let neg = st.borrow().driver_features;
+            {
+                let l = dev.borrow();
+                if r.is_err() {
+                    c.fail("socket: send panicked");
+                }
+                if l.indirect_chains != 0 && neg & F_INDIRECT == 0 {
+                    c.fail("socket: indirect descriptor used on the TX queue although RING_INDIRECT_DESC was not negotiated");
+                }
+                if neg & F_INDIRECT != 0 && l.chains >= 1 && l.indirect_chains == 0 {
+                    c.fail("socket: RING_INDIRECT_DESC negotiated but a two-buffer packet was sent with direct descriptors");
+                }
+                for e in &l.errors {
+                    c.fail(format!("socket device: {}", e));
+                }
+            }
+            // suppression: the device sets NO_NOTIFY on the TX queue's used ring
+            if neg & (1 << 29) == 0 {
+                let reg = st.borrow().queues.get(1).copied().unwrap_or_default();
+                if reg.set {
+                    let _ = hal::dev_write(reg.device, &1u16.to_le_bytes());
+                    let before = st.borrow().log.iter().filter(|(_, x)| matches!(x, TCall::Notify(1))).count();
+                    let _ = guarded(|| drv.send(&[9, 9], &mut info).is_ok());
+                    let after = st.borrow().log.iter().filter(|(_, x)| matches!(x, TCall::Notify(1))).count();
+                    if after != before {
+                        c.fail("socket: TX queue notified although the device set VIRTQ_USED_F_NO_NOTIFY and RING_EVENT_IDX was not negotiated");
+                    }
+                    let _ = hal::dev_write(reg.device, &0u16.to_le_bytes());
+                }
+            }
+            let (tl, m) = model_log(&st.borrow(), *mark);
+            *mark = m;
+            let _ = merged(tl);
+        }
         _ => {}
     }
     st.borrow_mut().on_notify = None;
